@@ -441,3 +441,141 @@ def group_lang(pattern, flags: int, group: int) -> Lang:
     end = l._build(p, l.start)
     l._add(end, ("eps",), l.accept)
     return l
+
+
+# ---- backtracking cost ------------------------------------------------------------------------------------------------------------------------
+def _first_set(items, is_bytes):
+    """(set of code points that can start a match of the item sequence, nullable)"""
+    import re._constants as C  # type: ignore
+    import re._parser as P  # type: ignore
+    out: set[int] = set()
+    for op, av in items:
+        fs, nul = _first_item(op, av, is_bytes)
+        out |= fs
+        if not nul:
+            return out, False
+    return out, True
+
+
+_UNI = range(0, 256)
+
+
+def _class_set(av, is_bytes):
+    import re._constants as C  # type: ignore
+    pat = None
+    neg = False
+    s: set[int] = set()
+    import re
+    for op, a in av:
+        if op is C.NEGATE:
+            neg = True
+        elif op is C.LITERAL:
+            s.add(a)
+        elif op is C.RANGE:
+            s |= set(range(a[0], min(a[1], 255) + 1))
+        elif op is C.CATEGORY:
+            probe = {C.CATEGORY_DIGIT: r"\d", C.CATEGORY_NOT_DIGIT: r"\D", C.CATEGORY_SPACE: r"\s", C.CATEGORY_NOT_SPACE: r"\S", C.CATEGORY_WORD: r"\w", C.CATEGORY_NOT_WORD: r"\W"}.get(a)
+            if probe is None:
+                s |= set(_UNI)
+            else:
+                rx = re.compile(probe.encode() if is_bytes else probe)
+                s |= {c for c in _UNI if rx.fullmatch(bytes([c]) if is_bytes else chr(c))}
+    return (set(_UNI) - s) if neg else s
+
+
+def _first_item(op, av, is_bytes):
+    import re._constants as C  # type: ignore
+    if op is C.LITERAL:
+        return {min(av, 255)}, False
+    if op is C.NOT_LITERAL:
+        return set(_UNI) - {av}, False
+    if op is C.ANY:
+        return set(_UNI), False
+    if op is C.IN:
+        return _class_set(av, is_bytes), False
+    if op in (C.MAX_REPEAT, C.MIN_REPEAT) or getattr(C, "POSSESSIVE_REPEAT", None) is op:
+        lo, _hi, sub = av
+        fs, nul = _first_set(list(sub), is_bytes)
+        return fs, nul or lo == 0
+    if op is C.SUBPATTERN:
+        return _first_set(list(av[3]), is_bytes)
+    if getattr(C, "ATOMIC_GROUP", None) is op:
+        return _first_set(list(av), is_bytes)
+    if op is C.BRANCH:
+        out: set[int] = set()
+        nul = False
+        for alt in av[1]:
+            fs, n_ = _first_set(list(alt), is_bytes)
+            out |= fs
+            nul = nul or n_
+        return out, nul
+    if op in (C.AT, C.ASSERT, C.ASSERT_NOT):
+        return set(), True
+    if op is C.GROUPREF:
+        return set(_UNI), True
+    return set(_UNI), True
+
+
+def _alternatives(items):
+    """Item sequences of a sub-pattern with top-level groups and branches expanded (bounded)."""
+    import re._constants as C  # type: ignore
+    seqs = [[]]
+    for op, av in items:
+        if op is C.SUBPATTERN:
+            subs = _alternatives(list(av[3]))
+        elif op is C.BRANCH:
+            subs = [s for alt in av[1] for s in _alternatives(list(alt))]
+        else:
+            subs = [[(op, av)]]
+        seqs = [a + b for a in seqs for b in subs][:256]
+    return seqs
+
+
+def _unbounded(op, av):
+    import re._constants as C  # type: ignore
+    return op in (C.MAX_REPEAT, C.MIN_REPEAT) and av[1] is C.MAXREPEAT
+
+
+def backtracking_hazards(pattern, flags: int = 0) -> list[str]:
+    """Structural reasons why a failing match of `pattern` takes more than linear time with Python's backtracking matcher:
+      nested  - an unbounded repetition whose body has an alternative that is itself (up to optional parts) an unbounded repetition, so a run
+                of n characters can be split between inner and outer loop in 2**n ways: (?:[a-z]+|%[0-9a-f]{2})+ , (a*)* , (\\w+\\s?)+
+    Possessive quantifiers and atomic groups do not backtrack and are not reported.  The test is syntactic and exact for the shapes above; it
+    does not look for polynomial cases (adjacent overlapping repetitions)."""
+    import re._constants as C  # type: ignore
+    import re._parser as P  # type: ignore
+    is_bytes = isinstance(pattern, (bytes, bytearray))
+    tree = P.parse(pattern, flags)
+    out: list[str] = []
+
+    def visit(items):
+        for op, av in items:
+            if op in (C.MAX_REPEAT, C.MIN_REPEAT):
+                lo, hi, sub = av
+                if hi is C.MAXREPEAT:
+                    for seq in _alternatives(list(sub)):
+                        solid = [(o, a) for o, a in seq if not _first_item(o, a, is_bytes)[1]]
+                        loops = [(o, a) for o, a in seq if _unbounded(o, a)]
+                        if loops and (not solid or (len(solid) == 1 and _unbounded(*solid[0]))):
+                            inner = loops[0] if not solid else solid[0]
+                            fs, _n = _first_item(*inner, is_bytes)
+                            if fs:
+                                out.append("nested")
+                visit(list(sub))
+            elif op is C.SUBPATTERN:
+                visit(list(av[3]))
+            elif op is C.BRANCH:
+                for alt in av[1]:
+                    visit(list(alt))
+            elif op in (C.ASSERT, C.ASSERT_NOT):
+                visit(list(av[1]))
+            elif getattr(C, "ATOMIC_GROUP", None) is op:
+                pass
+    visit(list(tree))
+    return out
+
+
+def _hazard_selfcheck() -> bool:
+    bad = [r"(?:[a-z]+|%[0-9a-f]{2})+", r"(a*)*", r"(\w+\s?)+$", rb"(?:[a-z0-9.-]+|%[0-9A-F]{2})+"]
+    good = [r"(?:[a-z]|%[0-9a-f]{2})+", r"[a-z]+(?:\.[a-z]+)*", r"(?:%[0-9a-f]+)+", r"\s*,\s*", r"(?:a+b)+", r"[^\r\n]*", r"(?>a+)+" if hasattr(__import__("re._constants", fromlist=["x"]), "ATOMIC_GROUP") else r"a+"]
+    return all(backtracking_hazards(p) for p in bad) and not any(backtracking_hazards(p) for p in good)
